@@ -1,3 +1,299 @@
 package main
 
-func artifactsStage(dir string, seed uint64, tier string) error { return nil }
+// stage artifacts:
+//  (a) image tarballs written by BuildImageTarballFromLayer, over image
+//      references whose length sweeps len(manifest.json) mod 512: re-read with
+//      archive/tar, every digest/size/diff-id recomputed (exploration);
+//  (b) OCI layouts written the way `apko build <dir>` does (layout.Write of the
+//      generated index): every blob re-hashed, every descriptor followed (exploration);
+//  (c) the generated index itself over architecture subsets (and map orders):
+//      manifests in order with the key of the image each digest belongs to,
+//      platform, and annotations -> Coq (index_case).
+
+import (
+	"encoding/json"
+	"fmt"
+	"os"
+	"path/filepath"
+	"sort"
+	"strings"
+	"time"
+
+	v1 "github.com/google/go-containerregistry/pkg/v1"
+	"github.com/google/go-containerregistry/pkg/v1/layout"
+
+	"chainguard.dev/apko/pkg/build/oci"
+	"chainguard.dev/apko/pkg/build/types"
+	"chainguard.dev/apko/pkg/options"
+	"verifharness/gal"
+)
+
+func tarballCase(tmp string, ref string, arch string, static_ bool, ic types.ImageConfiguration, residues map[int64]int) error {
+	out := filepath.Join(tmp, "image.tar")
+	_ = os.Remove(out)
+	defer os.Remove(out)
+	var l v1.Layer
+	if static_ {
+		l = staticLayer("tarball-" + arch)
+	} else {
+		var err error
+		if l, err = gzLayer("tarball-" + arch); err != nil {
+			return err
+		}
+	}
+	fail := func(tag, what string) {
+		implViolation("tarball-"+tag, map[string]any{"ref": ref, "arch": arch, "what": what})
+	}
+	opts := options.Options{SourceDateEpoch: time.Unix(1700000000, 0).UTC(), Arch: types.Architecture(arch)}
+	if err := oci.BuildImageTarballFromLayer(ctx, ref, l, out, ic, opts); err != nil {
+		fail("build-error", err.Error())
+		return nil
+	}
+	raw, err := os.ReadFile(out)
+	if err != nil {
+		return err
+	}
+	es, rerr := readTar(raw)
+	if rerr != nil {
+		fail("tar-unreadable", rerr.Error())
+		return nil
+	}
+	mj := findEntry(es, "manifest.json")
+	if mj == nil {
+		fail("missing-entry", "manifest.json")
+		return nil
+	}
+	residues[mj.Size%512]++
+	var dm []struct {
+		Config   string
+		RepoTags []string
+		Layers   []string
+	}
+	if err := json.Unmarshal(mj.Data, &dm); err != nil || len(dm) != 1 {
+		fail("manifest-json-invalid", fmt.Sprint(err, len(dm)))
+		return nil
+	}
+	if len(dm[0].RepoTags) != 1 || !strings.HasSuffix(dm[0].RepoTags[0], ref[strings.LastIndex(ref, "/")+1:]) {
+		fail("repotags", fmt.Sprint(dm[0].RepoTags))
+	}
+	// rebuild an OCI-style manifest view from the docker-style one and verify the blobs
+	cfg := findEntry(es, dm[0].Config)
+	if cfg == nil {
+		fail("missing-entry", dm[0].Config)
+		return nil
+	}
+	if "sha256:"+sha(cfg.Data) != dm[0].Config {
+		fail("config-digest-mismatch", dm[0].Config)
+	}
+	var cf v1.ConfigFile
+	if err := json.Unmarshal(cfg.Data, &cf); err != nil {
+		fail("config-json-invalid", err.Error())
+		return nil
+	}
+	if len(cf.RootFS.DiffIDs) != len(dm[0].Layers) {
+		fail("diffid-count-mismatch", fmt.Sprint(len(cf.RootFS.DiffIDs), len(dm[0].Layers)))
+		return nil
+	}
+	for i, ln := range dm[0].Layers {
+		le := findEntry(es, ln)
+		if le == nil {
+			fail("missing-entry", ln)
+			continue
+		}
+		if sha(le.Data)+".tar.gz" != ln {
+			fail("layer-digest-mismatch", ln)
+		}
+		un := le.Data
+		if u, ok := gunzip(le.Data); ok {
+			un = u
+		}
+		if sha(un) != cf.RootFS.DiffIDs[i].Hex {
+			fail("diffid-mismatch", fmt.Sprintf("layer %d", i))
+		}
+	}
+	return nil
+}
+
+// verifyLayout follows every descriptor from index.json down to the layers.
+func verifyLayout(dir string, nArchs int, fail func(tag, what string)) {
+	if b, err := os.ReadFile(filepath.Join(dir, "oci-layout")); err != nil || !strings.Contains(string(b), "imageLayoutVersion") {
+		fail("oci-layout-file", fmt.Sprint(err))
+	}
+	rawIdx, err := os.ReadFile(filepath.Join(dir, "index.json"))
+	if err != nil {
+		fail("index-json-missing", err.Error())
+		return
+	}
+	var im v1.IndexManifest
+	if err := json.Unmarshal(rawIdx, &im); err != nil {
+		fail("index-json-invalid", err.Error())
+		return
+	}
+	if len(im.Manifests) != nArchs {
+		fail("index-manifest-count", fmt.Sprintf("%d manifests for %d architectures", len(im.Manifests), nArchs))
+	}
+	blob := func(hexd string) ([]byte, bool) {
+		b, err := os.ReadFile(filepath.Join(dir, "blobs", "sha256", hexd))
+		return b, err == nil
+	}
+	get := func(hexd string, layer bool) ([]byte, bool) { return blob(hexd) }
+	for _, d := range im.Manifests {
+		mb, ok := blob(d.Digest.Hex)
+		if !ok {
+			fail("manifest-blob-missing", d.Digest.String())
+			continue
+		}
+		if sha(mb) != d.Digest.Hex {
+			fail("manifest-digest-mismatch", d.Digest.String())
+		}
+		if int64(len(mb)) != d.Size {
+			fail("manifest-size-mismatch", d.Digest.String())
+		}
+		verifyImage(mb, get, fail)
+	}
+	// every file under blobs/sha256 is named by its own digest
+	ents, _ := os.ReadDir(filepath.Join(dir, "blobs", "sha256"))
+	for _, e := range ents {
+		if b, ok := blob(e.Name()); ok && sha(b) != e.Name() {
+			fail("blob-name-digest-mismatch", e.Name())
+		}
+	}
+}
+
+type indexDesc struct {
+	Keys   []string `json:"architecture_keys"`
+	Docker bool     `json:"docker_manifest_list"`
+	VCS    string   `json:"vcs_url"`
+	Ann    map[string]string `json:"annotations"`
+	Order  []string `json:"observed_manifest_order"`
+}
+
+func indexCase(w *gal.Writer, keys []string, docker bool, ic types.ImageConfiguration, created time.Time, layoutDir string) error {
+	b, err := buildIndexFor(keys, ic, created, 1, false, docker)
+	if err != nil {
+		implViolation("index-build-error", map[string]any{"keys": keys, "error": err.Error()})
+		return nil
+	}
+	im, err := b.idx.IndexManifest()
+	if err != nil {
+		return err
+	}
+	keyOf := map[string]string{}
+	for a, img := range b.imgs {
+		d, err := img.Digest()
+		if err != nil {
+			return err
+		}
+		keyOf[d.String()] = a.String()
+		// descriptor of the index vs the image itself
+		raw, _ := img.RawManifest()
+		for _, m := range im.Manifests {
+			if m.Digest == d && (m.Size != int64(len(raw)) || sha(raw) != d.Hex) {
+				implViolation("index-descriptor-mismatch", map[string]any{"keys": keys, "arch": a.String()})
+			}
+		}
+	}
+	var items, order []string
+	for _, m := range im.Manifests {
+		k, ok := keyOf[m.Digest.String()]
+		if !ok {
+			implViolation("index-descriptor-unknown-image", map[string]any{"keys": keys, "digest": m.Digest.String()})
+			k = "?"
+		}
+		p := v1.Platform{}
+		if m.Platform != nil {
+			p = *m.Platform
+		}
+		order = append(order, k)
+		items = append(items, gal.Pair(gal.Str(k), "("+gal.Str(p.Architecture)+", "+gal.Str(p.Variant)+", "+gal.Str(p.OS)+")"))
+	}
+	sk := append([]string(nil), keys...)
+	term := fmt.Sprintf("{| xc_keys := %s; xc_docker := %s; xc_ic := %s; xc_created := %s; xc_rfc3339 := %s; xo_manifests := %s; xo_annotations := %s |}",
+		gal.StrList(sk), gal.Bool(docker), galImageConfig(&ic), gal.Z(created.Unix()), gal.Str(created.Format(time.RFC3339)), gal.List(items), galPairs(im.Annotations))
+	w.Add(gal.Case{Term: term, Desc: indexDesc{keys, docker, ic.VCSUrl, ic.Annotations, order}, Class: fmt.Sprintf("archs=%d/docker=%v", len(keys), docker),
+		Trivial: len(keys) < 2, Key: fmt.Sprintf("%v|%v|%s|%v", keys, docker, ic.VCSUrl, ic.Annotations)})
+	if layoutDir != "" {
+		_ = os.RemoveAll(layoutDir)
+		if err := os.MkdirAll(layoutDir, 0o755); err != nil {
+			return err
+		}
+		defer os.RemoveAll(layoutDir)
+		if _, err := layout.Write(layoutDir, b.idx); err != nil {
+			implViolation("layout-write-error", map[string]any{"keys": keys, "error": err.Error()})
+			return nil
+		}
+		verifyLayout(layoutDir, len(keys), func(tag, what string) {
+			implViolation("layout-"+tag, map[string]any{"keys": keys, "what": what})
+		})
+	}
+	return nil
+}
+
+func artifactsStage(dir string, seed uint64, tier string) error {
+	w := &gal.Writer{Dir: dir, Require: "From Apko Require Import Corr.C12.", Type: "index_case", Check: "check_index", Shard: 300}
+	tmp, err := os.MkdirTemp("", "c12-art-")
+	if err != nil {
+		return err
+	}
+	defer os.RemoveAll(tmp)
+	r := gal.NewRand(seed + 12)
+	created := time.Unix(1700000000, 0).UTC()
+
+	// (a) image tarballs
+	residues := map[int64]int{}
+	nref := 40
+	if tier == "thorough" {
+		nref = 520
+	}
+	for i := 0; i < nref; i++ {
+		ref := "ex" + strings.Repeat("r", i%180) + ":t" + strings.Repeat("x", (i/180)*60)
+		if i%7 == 3 {
+			ref = "registry.example.com/ns/" + ref
+		}
+		if err := tarballCase(tmp, ref, gal.Pick(r, archForms[:9]), i%2 == 0, types.ImageConfiguration{}, residues); err != nil {
+			return err
+		}
+	}
+	cov := len(residues)
+	fmt.Printf("STAT {\"tarball_manifest_json_residues_covered\": %d, \"tarballs\": %d}\n", cov, nref)
+
+	// (b)+(c) indexes and layouts
+	all := archForms[:9]
+	subsets := [][]string{{}, {"amd64"}, {"arm/v7", "amd64"}, {"s390x", "riscv64", "ppc64le", "loong64"}, all,
+		{"arm/v6", "arm/v7"}, {"x86_64", "aarch64"}, {"amd64", "x86_64"}, {"armhf", "arm64", "386"}, {"mips64", "amd64"}}
+	ics := []types.ImageConfiguration{{}, {VCSUrl: "https://github.com/x/y@deadbeef", Annotations: map[string]string{"a": "b"}},
+		{VCSUrl: "no-at", Annotations: map[string]string{"org.opencontainers.image.created": "configured", "k": "v"}}}
+	for i, s := range subsets {
+		for rep := 0; rep < 3; rep++ { // Go randomises the map order per call
+			if err := indexCase(w, s, false, ics[i%len(ics)], created, map[bool]string{true: filepath.Join(tmp, "layout"), false: ""}[rep == 0]); err != nil {
+				return err
+			}
+		}
+		if err := indexCase(w, s, true, ics[(i+1)%len(ics)], created, ""); err != nil {
+			return err
+		}
+	}
+	n := 60
+	if tier == "thorough" {
+		n = 1200
+	}
+	for i := 0; i < n; i++ {
+		var s []string
+		for _, a := range archForms {
+			if r.Chance(1, 3) {
+				s = append(s, a)
+			}
+		}
+		// insertion order into the Go map is irrelevant, but vary the list anyway
+		sort.Slice(s, func(i, j int) bool { return (len(s[i])*7+int(s[i][0]))%5 < (len(s[j])*7+int(s[j][0]))%5 })
+		ld := ""
+		if i%4 == 0 {
+			ld = filepath.Join(tmp, "layout")
+		}
+		ic := types.ImageConfiguration{VCSUrl: gal.Pick(r, vcsForms), Annotations: genAnn(r)}
+		if err := indexCase(w, s, r.Chance(1, 5), ic, time.Unix(int64(r.Intn(2000000000)), 0).UTC(), ld); err != nil {
+			return err
+		}
+	}
+	return w.Flush()
+}
